@@ -870,6 +870,13 @@ class Interp:
             a = Aff.atom(("len", v.root, v.idx))
             st.facts.add(cmp_cond(">=", a, ZERO))
             return a
+        if isinstance(v, Aff):
+            # a loop-carried array variable (summarised as one opaque value): its length is a function of that value
+            sa = v.single_atom() if hasattr(v, "single_atom") else None
+            if isinstance(sa, tuple) and sa and sa[0] == "lv":
+                a = Aff.atom(("len", f"lv:{sa[1]}:{sa[2]}", ()))
+                st.facts.add(cmp_cond(">=", a, ZERO))
+                return a
         return self.fresh("unk")
 
     # ---------------------------------------------------------------- branches
